@@ -91,6 +91,6 @@ func init() {
 			}
 			parts = append(parts, fmt.Sprintf("(%d,[%s])", x.k, strings.Join(bs, ";")))
 		}
-		return fmt.Sprintf("Definition %s : list (N * list N) := [%s].\n", it.Coq, strings.Join(parts, ";\n  ")), nil
+		return fmt.Sprintf("Definition %s : list (N * list N) := [%s]%%N.\n", it.Coq, strings.Join(parts, ";\n  ")), nil
 	}
 }
